@@ -20,7 +20,7 @@ def main():
     props = sys.argv[3:] or sorted(registry.PROPS)
     scratch = tempfile.mkdtemp(prefix="sweeprepo.", dir="/tmp")
     try:
-        subprocess.run(f"cp -a /repo/. {scratch}/ && rm -rf {scratch}/.git", shell=True, check=True)
+        subprocess.run(f"rsync -a --exclude .git /repo/ {scratch}/", shell=True, check=True)
         if patch != "-":
             r = subprocess.run(["patch", "-p1", "-s", "-i", os.path.abspath(patch)], cwd=scratch)
             if r.returncode:
